@@ -240,6 +240,27 @@ impl Engine for C15 {
             }
             out.push(Program { keys, blobs, steps });
         }
+        // a linked file is deleted by its owner, then a different file with the same bytes is
+        // linked: the address is occupied by a dangling link; nothing outside the cache is written
+        for fl in [Fl::Sync, Fl::Async] {
+            for oneshot in [true, false] {
+                let keys = vec!["first-link".to_string(), "second-link".to_string()];
+                let blobs = vec![crate::blob::Blob::new(700, 3), crate::blob::Blob::new(12, 4)];
+                let link = |key: usize, target: usize| {
+                    Op::LinkTo(LinkSpec { key: Some(key), blob: 0, target, relative: false, algo: crate::blob::Algo::Sha256, oneshot, pre_reads: vec![], declare: Declare::Exact, integ: IntegDecl::None, dotdot_via_symlink: false, vectored_reads: false })
+                };
+                let steps = vec![
+                    Step { op: link(0, 0), fl },
+                    Step { op: Op::RemoveTarget { target: 0 }, fl: Fl::Sync },
+                    Step { op: link(1, 1), fl },
+                    Step { op: Op::Read { key: 0 }, fl },
+                    Step { op: Op::Read { key: 1 }, fl },
+                    Step { op: Op::RemoveTarget { target: 1 }, fl: Fl::Sync },
+                    Step { op: link(0, 2), fl },
+                ];
+                out.push(Program { keys, blobs, steps });
+            }
+        }
         let hk = gen::hostile_keys();
         for (i, pair) in hk.chunks(2).enumerate() {
             let keys: Vec<String> = pair.to_vec();
